@@ -27,6 +27,10 @@ class Body(object):
         self._content_data = None
 
     def __getattr__(self, key):
+        if key == 'file':
+            # Not initialized yet (e.g. while being copied or unpickled).
+            raise AttributeError(key)
+
         return getattr(self.file, key)
 
     def content(self):
